@@ -333,6 +333,15 @@ pub fn run(ctx: &mut Ctx) {
         return;
     }
     let nh = if ctx.slow_tool { 6 } else { ctx.tier.pick(20_000u64, 1_000_000u64) };
+    // values made by every public constructor of the one type that has several (TXT; some of them cache the encoded size)
+    if ctx.family_active("txt-ctor") {
+        let nt = if ctx.slow_tool { 30 } else { ctx.tier.pick(2_000u64, 100_000u64) };
+        for idx in 0..nt {
+            if ctx.take("txt-ctor", idx) {
+                super::c04::txt_ctor_case(ctx, idx, false);
+            }
+        }
+    }
     for idx in 0..nh {
         if ctx.take("helpers", idx) {
             if ctx.stop("helpers") {
